@@ -166,5 +166,21 @@ Proof.
 Qed.
 
 (* the jwt Spec oracle read off a table coincides with the one the theorems use *)
-Lemma link_jwt_ok t s tok : jwt_ok_of t s tok = jwt_ok (jwt_of t) s tok.
+Lemma link_jwt_ok t jt s tok : jwt_ok_of t jt s tok = jwt_ok (jwt_of t jt) s tok.
 Proof. reflexivity. Qed.
+
+(* the engine wires one verifier per route group: bindFeaturedRoutes asks signatureVerifier once per
+   group and passes the result to every bindRoute of that group *)
+Lemma link_bind_featured_routes : C04_Gen.bind_featured_calls = ["ng.signatureVerifier"; "return"; "ng.bindRoute"; "return"; "return"].
+Proof. reflexivity. Qed.
+
+Lemma link_bind_routes : C04_Gen.bind_routes_calls = ["ng.createMetrics"; "ng.bindFeaturedRoutes"; "return"; "return"].
+Proof. reflexivity. Qed.
+
+(* a group's configured pairs are what its decryptor map holds when fingerprints are not repeated *)
+Lemma link_configured_for g fp k :
+  configured_for g fp k = true -> exists fp', bytes_eqb fp' fp = true /\ In (fp', k) (g_keys g).
+Proof.
+  unfold configured_for. rewrite existsb_exists. intros [[fp' k'] [Hin H]]. simpl in H.
+  apply andb_true_iff in H as [H1 H2]. apply N.eqb_eq in H2. subst. exists fp'. auto.
+Qed.
